@@ -23,7 +23,7 @@ ResOk(r, exp) ==
         ELSE TRUE
      /\ (r.d.k = "skipped" \/ PDumpNode(r.d, exp, r.byid))
   ELSE IF exp.st = "notfound" THEN r.st = "notfound" \/ (exp.lbl = "IdxBeyond" /\ r.st = "err") \/ (r.undecl /\ r.st = "err")
-  ELSE r.st = "err"
+  ELSE r.st \in {"err", "notfound"}       \* C07 does not fix how a non-fitting path item is refused
 Why(r, exp) == IF r.st # exp.st THEN r.st ELSE IF r.nk # exp.nk THEN "node-kind"
                ELSE IF exp.nk = "val" /\ exp.v.k = "message" /\ r.pm # exp.v THEN "message-differs"
                ELSE IF exp.nk = "val" /\ exp.v.k # "message" /\ (r.scal.k # exp.v.k \/ r.scal.b # exp.v.b) THEN "scalar-differs"
